@@ -490,6 +490,7 @@ class Check:
                 + self.undecided,
                 'known_findings_replayed': self.native_checks,
                 'samples': samples,
+                'tables': self.samples,          # pack-provided tables (ck.samples): decided rows listed for the reader
                 'repo_tree_sha': self.P.tree_sha(),
                 'explanation': 'VCs generated from /repo source at this run by pyvc (symbolic execution of the real '
                                'AST against sidecar contracts); bounded checks are listed separately and not '
